@@ -78,6 +78,8 @@ type RunState struct {
 	Yield       func(steps int64) // optional scheduling noise (C16)
 	Tasks       map[*plrt.Task]int
 	StepsAtFire int64
+	// StmtsAfterFire counts statements STARTED after the signal was observed true.
+	StmtsAfterFire int
 	// GraceAfterFire: step allowance after the first true answer (0 = none).
 	GraceAfterFire int64
 }
@@ -109,6 +111,9 @@ func (rs *RunState) step(kind int) {
 	switch kind {
 	case 1:
 		rs.Stmts++
+		if rs.FiredPoll > 0 {
+			rs.StmtsAfterFire++
+		}
 	case 2:
 		rs.Iters++
 	}
